@@ -178,7 +178,9 @@ func (c *Case) exec(tid int, vm *otto.Otto, what string, src interface{}) {
 func (c *Case) CheckShared(when string) {
 	for _, sh := range c.Shared {
 		if h := StructHash(sh.Obj); h != sh.Hash {
-			c.Problems = append(c.Problems, fmt.Sprintf("%s: shared %s modified (structural hash %016x -> %016x)", when, sh.Name, sh.Hash, h))
+			// (the new hash value is not part of the observation: once a Script
+			// points into a runtime its value depends on that runtime's state)
+			c.Problems = append(c.Problems, fmt.Sprintf("%s: shared %s was modified (structural hash differs from the hash taken at construction)", when, sh.Name))
 			sh.Hash = h // report each modification once
 		}
 	}
